@@ -128,7 +128,7 @@ def run(tier):
     v.add_tlc(gres, "DCOP structures (Gen_C16, %s)" % consts)
     insts = [dict(slim(c["inst"]), shape="gen%d" % len(c["inst"]["vars"])) for c in cases]
     insts.sort(key=lambda i: json.dumps(i, sort_keys=True))
-    sizes = [(k, n) for k in ("chain", "star", "sparse") for n in ((60, 400, 1200) if quick else (60, 400, 1200, 2000, 3000))]
+    sizes = [(k, n) for k in ("chain", "star", "sparse") for n in ((60, 400, 1200) if quick else (60, 400, 1200, 2000, 3000))] + ([("chain", 2500)] if quick else [])
     sizes += [("forest", n) for n in ((60, 250) if quick else (60, 250, 600))]   # construction time grows cubically with the number of components
     sizes += [("clique", n) for n in ((6, 14) if quick else (6, 14, 30))]
     big = [scale_family(k, n, rnd) for k, n in sizes]
